@@ -75,7 +75,7 @@ func cyclePath(edges map[string][]gEdge) (prefix, cycle []gEdge, ok bool) {
 	return
 }
 
-func deepDoc(prefix, cycle []gEdge, depth int) string {
+func deepDoc(prefix, cycle []gEdge, depth int, wrap bool) string {
 	var open, close strings.Builder
 	var closers []string
 	put := func(e gEdge) {
@@ -103,6 +103,9 @@ func deepDoc(prefix, cycle []gEdge, depth int) string {
 	}
 	for i := len(closers) - 1; i >= 0; i-- {
 		close.WriteString(closers[i])
+	}
+	if !wrap {
+		return open.String() + `{"v":1}` + close.String()
 	}
 	return `{"a":` + open.String() + `{"v":1}` + close.String() + `}`
 }
@@ -196,7 +199,11 @@ func judgeGraphUnits(sc *work.Scratch, devs []string, units []*Unit, g *graphRes
 		}
 		if ok {
 			for _, n := range []int{200, 10001} {
-				docs = append(docs, map[string]any{"t": "raw", "x": deepDoc(prefix, cycle, n)})
+				wrap := true
+				if w, has := u.Raw["wrap"].(bool); has {
+					wrap = w
+				}
+				docs = append(docs, map[string]any{"t": "raw", "x": deepDoc(prefix, cycle, n, wrap)})
 				deepN[i] = append(deepN[i], n)
 			}
 			ndeep[i] = 2
